@@ -305,6 +305,39 @@ theorem monitor_step_is_translated_code (s : Monitor.St) (t : Tid) (s' : Monitor
           SyncCfg.monitor_tryLock, SyncCfg.monitor_unlock, SyncCfg.monitor_wait, SyncCfg.monitor_waitT]
     · simp at hs
 
+/-! ## Semaphore: signal / wait / tryWait are single calls (the loops of wait(timeout) are shape-pinned, Generated/SyncSemPoll) -/
+
+def Sem.at : Sem.Pc → Option (Fn × Nat)
+  | .post => some (SyncCfg.semaphore_signal, 0)
+  | .wait => some (SyncCfg.semaphore_wait, 0)
+  | .tryWait => some (SyncCfg.semaphore_tryWait, 0)
+  | _ => none
+
+def Sem.callOf : Sem.Pc → PCall
+  | .post => .semPost
+  | .wait => .semWait
+  | _ => .semTryWait
+
+/-- the result of the semaphore call a step completes (ASSUMED POSIX layer): `sem_wait` fails only with EINTR (alternative 1),
+    `sem_trywait` fails iff the count is zero -/
+def Sem.result (s : Sem.St) (t : Tid) (alt : Nat) : Bool :=
+  match s.pc t with
+  | .wait => decide (alt = 0)
+  | .tryWait => decide (0 < s.count)
+  | _ => true
+
+theorem sem_simple_step_is_translated_code (s : Sem.St) (t : Tid) (s' : Sem.St) (alt : Nat)
+    (hp : s.pc t = .post ∨ s.pc t = .wait ∨ s.pc t = .tryWait) (hs : Sem.step s t (.run alt) = some s') :
+    ∃ f n, Sem.at (s.pc t) = some (f, n) ∧ f.callAt n = some (Sem.callOf (s.pc t)) ∧
+      f.entry true = some ⟨none, false, .node 0⟩ ∧ f.entry false = some ⟨none, false, .node 0⟩ ∧
+      ∃ e v, f.after n (Sem.result s t alt) true = some e ∧ f.after n (Sem.result s t alt) false = some e ∧ e.store = none ∧
+        e.next = .ret v ∧ s'.pc t = .idle ∧ s'.ret t = some (retVal v) := by
+  simp only [Sem.step] at hs
+  rcases hp with hp | hp | hp <;> simp only [hp, Sem.done] at hs <;> (repeat' split at hs) <;> simp at hs <;> (try subst hs) <;>
+    (refine ⟨_, _, by rw [hp]; rfl, ?_⟩;
+     simp_all [Sem.callOf, Sem.result, Fn.callAt, Fn.after, Fn.entry, SyncCfg.semaphore_signal, SyncCfg.semaphore_wait,
+        SyncCfg.semaphore_tryWait, retVal, Cfg.RetV.toVal, upd])
+
 /-! ## Thread (Thread.cpp, Thread.hpp): the handle `thread` of Thread object `j` plays the role of the flag -/
 
 /-- table, node and Thread object of a program counter; `create j none` = the pthread_create of the member overload -/
@@ -412,7 +445,8 @@ theorem translated_tables_have_no_other_program_points :
     SyncCfg.signal_waitT.nodes.length = 4 ∧ SyncCfg.monitor_lock.nodes.length = 1 ∧ SyncCfg.monitor_tryLock.nodes.length = 1 ∧
     SyncCfg.monitor_unlock.nodes.length = 1 ∧ SyncCfg.monitor_wait.nodes.length = 1 ∧ SyncCfg.monitor_waitT.nodes.length = 1 ∧
     SyncCfg.monitor_set.nodes.length = 3 ∧ SyncCfg.thread_start.nodes.length = 1 ∧ SyncCfg.thread_mstart.nodes.length = 1 ∧
-    SyncCfg.thread_join.nodes.length = 1 ∧ SyncCfg.thread_dtor.nodes.length = 1 := by decide
+    SyncCfg.thread_join.nodes.length = 1 ∧ SyncCfg.thread_dtor.nodes.length = 1 ∧ SyncCfg.semaphore_signal.nodes.length = 1 ∧
+    SyncCfg.semaphore_wait.nodes.length = 1 ∧ SyncCfg.semaphore_tryWait.nodes.length = 1 := by decide
 
 /-- non-vacuity: a reachable Signal state with a waiter at its re-acquisition while the flag is set (the step completes
     pthread_cond_wait with success; the table sends it to the unlock that precedes `return true`), and a reachable Monitor
